@@ -230,3 +230,13 @@ Proof.
   - destruct (vlq_diff_total _ _ Hni) as [t5 E5]. rewrite E5. cbn. eexists. reflexivity.
   - cbn. eexists. reflexivity.
 Qed.
+
+(** two accepted entry lists that produce the same [mappings] string describe the same segments: the
+    encoding loses nothing a consumer can see *)
+Lemma mappings_injective_lemma : forall es es' m m',
+  add_entries m0 es = Some m -> add_entries m0 es' = Some m' -> mbuf m = mbuf m' ->
+  map seg_of_entry es = map seg_of_entry es'.
+Proof.
+  intros es es' m m' H H' E. pose proof (mappings_decode_lemma _ _ H) as D. pose proof (mappings_decode_lemma _ _ H') as D'.
+  rewrite E in D. rewrite D in D'. injection D' as ->. reflexivity.
+Qed.
